@@ -23,12 +23,22 @@ Definition mk_libm (cbrt log2 : Z) : libm := {| l_cbrt := f64_of_bits cbrt; l_lo
 (* bounded integers: element arithmetic of the width formulas is overflow-checked; the edges
    min + i * w are placed over Z with from_usize(i) restricted to the type (classes K4 / K5 are about
    that placement and stay outside the model, as in Run/RunStrat.v) *)
+(* debug profile: the edge min + from_usize(i) * w is computed in the element type with overflow checks,
+   for every i in 0..=n_bins (the counting loop and the builder evaluate the same expressions); the grid
+   itself is the unbounded one whenever none of these leaves the type *)
+Definition placement_ok (t : ity) (mn w : Z) (nb : nat) : bool :=
+  forallb (fun i => in_range t (nz i * w) && in_range t (mn + nz i * w)) (seq 0 (S nb)).
+
 Definition m_full_int (sg : bool) (bits : Z) (k : Z) (data : list Z) (cbrt log2 : Z) : list Z :=
   let t := {| signed := sg; bits := bits |} in
   let repr := fun i => in_range t (nz i) in
   let fuel_of := fun w mn mx => zn (if 0 <? w then (mx - mn) / w + 3 else 3) in
-  enc_full (fun v => v)
-    (strategy_full (int_elt t) Z_ops repr fuel_of (kind_of k) data (mk_libm cbrt log2)).
+  let r := strategy_full (int_elt t) Z_ops repr fuel_of (kind_of k) data (mk_libm cbrt log2) in
+  match r with
+  | Ok (inr (w, nb, es)) =>
+    if placement_ok t (hd 0 es) w nb then enc_full (fun v => v) r else [3]
+  | _ => enc_full (fun v => v) r
+  end.
 
 (* N64 (debug profile: every N64 operation panics on a NaN result).  The EquiSpaced model places the
    edges with unchecked binary64 operations; for finite data the only way an edge min + i * w can be
